@@ -41,6 +41,43 @@ def plan(tier: str, seed: int) -> list[dict]:
     return [{"syntax": s, "i": i} for s in ("vmx", "ovf", "vbox", "pvs") for i in range(n)]
 
 
+def _twins(syn, rng, res):
+    """Two descriptors alive in one process that use the same identifiers/keys for different files: each object's
+    answer is its own, also when the first is asked only after the second was built."""
+    cnt = res["cnt"]
+    if syn == "ovf":
+        from dissect.hypervisor.descriptor.ovf import OVF
+
+        text, want = w.gen_ovf(rng)
+        ext, ctor = ".vmdk", (lambda t: OVF(io.StringIO(t)))
+    elif syn == "pvs":
+        from dissect.hypervisor.descriptor.pvs import PVS
+
+        text, want, _ = w.gen_pvs(rng)
+        ext, ctor = ".hdd", (lambda t: PVS(io.StringIO(t)))
+    else:
+        from dissect.hypervisor.descriptor.vmx import VMX
+
+        text, want, _, _ = w.gen_vmx(rng)
+        ext, ctor = ".vmdk", VMX.parse
+    text2 = text.replace(ext, "-twin" + ext)
+    want2 = [n.replace(ext, "-twin" + ext) for n in want]
+    o = call(lambda: (ctor(text), ctor(text2)))
+    if not o.ok:
+        res["viol"].append({"what": f"{syn}: parse failed: {o.brief()}", "mech": MECH, "detail": {"tb": o.tb}})
+        return
+    a, b = o.value
+    got_b = call(lambda: sorted(b.disks()))
+    got_a = call(lambda: sorted(a.disks()))
+    got_b2 = call(lambda: sorted(b.disks()))
+    cnt["twin_descriptor_checks"] = cnt.get("twin_descriptor_checks", 0) + 1
+    for label, got, exp in (("first (asked after the second was built)", got_a, sorted(want)), ("second", got_b, sorted(want2)), ("second, asked again", got_b2, sorted(want2))):
+        if not got.ok or got.value != exp:
+            res["viol"].append({"what": f"{syn}: with two descriptors alive, the {label} does not report its own disks", "mech": MECH,
+                                "detail": {"got": got.value if got.ok else got.brief(), "exp": exp}})
+            return
+
+
 def run(case: dict, ctx) -> dict:
     res = {"cnt": {}, "viol": [], "sets": {}}
     cnt = res["cnt"]
@@ -132,6 +169,8 @@ def run(case: dict, ctx) -> dict:
             nontrivial += int(bool(want) and bool(never))
             sample = sample or {"syntax": "pvs", "disks": want, "non_disks": never}
     cnt[f"{syn}_documents"] = cnt.get("documents", 0)
+    if not res["viol"] and syn in ("ovf", "pvs", "vmx"):
+        _twins(syn, rng, res)
     res["nontrivial"] = nontrivial > 0
     res["sig"] = (syn, case["i"])
     res["sample"] = sample
